@@ -186,3 +186,16 @@ func init() {
 		Runs: []Run{{Pkg: hp + "c11", Variant: "real"}},
 	}
 }
+
+func init() {
+	specs["C12"] = &Spec{
+		Title: "Results do not depend on I/O chunking; processing is streaming",
+		Level: "exploration",
+		LevelText: "Stateless exploration of I/O schedules with the choice-point explorer: every sequence of Write sizes (all compositions on a ChunkSize=4 build of the same sources; every schedule within 2/3 deviations from a menu of seam-relative sizes on ChunkSize=16 and real builds) must give byte-identical output under a fixed CSPRNG tape, full Write counts and at most one chunk held back; every source delivery schedule within 2/3 deviations (1 byte, up to / just past each seam, data together with EOF) x 13 consumers (read sizes around the chunk size, bufio of three sizes incl. the Parse shortcut, one-byte/half/data+EOF readers) x valid and 19 kinds of damaged files must give the same plaintext and the same error text as all-at-once delivery, with at most one chunk of read-ahead.",
+		LevelNote: "zero-length (0, nil) source reads are not in the alphabet (io.Reader discourages them; the EOF probe in stream.Reader would misreport them) — noted, not claimed",
+		Technique: "stateless deviation-bounded exploration of environment answers (I/O schedules) on the implementation, differential against the default schedule",
+		Rule: "executions = schedules explored; transitions = choice points passed; distinct_nontrivial = distinct schedules (each execution is a different choice vector); oracle = equality with the default-schedule observation, Write return values, hold-back and read-ahead bounds.",
+		Assumptions: commonAssume,
+		Runs: []Run{{Pkg: hp + "c12", Variant: "scaled4", Optional: true}, {Pkg: hp + "c12", Variant: "scaled16", Optional: true}, {Pkg: hp + "c12", Variant: "real"}},
+	}
+}
